@@ -93,6 +93,10 @@ theorem receive_invF {t : Tcb} (h : TInvF port issX issY subX subY delX finY t) 
     show TInvF port issX issY subX subY (delX ++ []) finY t
     rw [List.append_nil]; exact h
 
+theorem receive_finSent (t : Tcb) : finSent t.receive.1 = finSent t := by
+  unfold receive
+  split <;> first | rfl | exact finSent_congr rfl rfl
+
 /-- the segmentizing loop of `segments()` cuts valid slices off the outgoing text -/
 theorem segmentize_invG (maxSeg fuel : Nat) {t t' : Tcb} (qb : Nat)
     (h : TInvG port issX issY subX subY delX false finY t) (e : segmentize maxSeg fuel t qb = .ok t') :
@@ -359,7 +363,7 @@ theorem close_invF {t t' : Tcb} {r : CloseResult}
     plain header from the port the segment was addressed to -/
 theorem listen_invF {g : Segment} {iss : Seq} {mtu : U16} {res : Option ListenResult}
     (hv : ValidF issY subY finY g) (e : segmentArrivesListen g iss mtu = .ok res) :
-    (∀ t, res = some (.Tcb t) → TInvF g.hdr.dstPort iss issY [] subY [] finY t) ∧
+    (∀ t, res = some (.Tcb t) → TInvF g.hdr.dstPort iss issY [] subY [] finY t ∧ finSent t = false) ∧
     (∀ hd, res = some (.Response hd) → hd.ctl.syn = false ∧ hd.ctl.fin = false ∧ hd.srcPort = g.hdr.dstPort) := by
   unfold segmentArrivesListen at e
   dsimp only at e
@@ -398,17 +402,18 @@ theorem listen_invF {g : Segment} {iss : Seq} {mtu : U16} {res : Option ListenRe
         have i1 := base.enqSyn
           ((((Hdr.builder g.hdr.dstPort g.hdr.srcPort iss).withSyn).withAck (g.hdr.seq + 1)).withWnd ({} : Rcv).wnd).built
           rfl rfl rfl rfl
-        refine TInvF.of_g (fx := false)
-          ⟨i1.lp, i1.iss, i1.out, i1.rtx, i1.one, fun x hx => ?_, i1.rcv0, i1.rcv1, i1.eof, i1.irs⟩ ?_
+        have key : ∀ u : Tcb, u.state = .SynReceived → finSent u = false := by
+          intro u hu; unfold finSent; rw [hu]
+        refine ⟨TInvF.of_g (fx := false)
+          ⟨i1.lp, i1.iss, i1.out, i1.rtx, i1.one, fun x hx => ?_, i1.rcv0, i1.rcv1, i1.eof, i1.irs⟩ ?_, ?_⟩
         · rcases LHeap.mem_push.1 hx with rfl | hx
           · refine ⟨fun hf => ?_, (fun h0 => by cases h0), fun hne => absurd htext hne⟩
             have hf' : g.hdr.ctl.fin = true := hf
             have := (hv.fin hf').2.1
             rw [hsyn] at this; cases this
           · exact i1.heap x hx
-        · have key : ∀ u : Tcb, u.state = .SynReceived → finSent u = false := by
-            intro u hu; unfold finSent; rw [hu]
-          exact key _ (state_enqueueBuilt _ _)
+        · exact key _ (state_enqueueBuilt _ _)
+        · exact key _ (state_enqueueBuilt _ _)
       · cases e; exact ⟨(fun _ h0 => by cases h0), (fun _ h0 => by cases h0)⟩
 
 end
